@@ -56,6 +56,22 @@ theorem bitset_tree_correct (o : Oracles) (ao : AggOracles) (env : Env) (g : Lis
   rw [testBit_groupOr _ _ hi, List.any_map]
   rfl
 
+/-- the statement without the bound on the indices: **false** — the planner's bit masks are `int64(1) << i`
+    and ClickHouse's `bitShiftLeft(toUInt64(c), i)` is 0 from bit 64 on, so condition number 65 and later of
+    one selector can never hold (finding `over-64-conditions`) -/
+def bitset_tree_correct_full : Prop :=
+  ∀ (o : Oracles) (ao : AggOracles) (env : Env) (g : List Row) (es : List Expr) (al : Bool) (c : Cond),
+    evalHavG o ao env g (groupOr (g.map (fun r => es.map (evalB o env r)))) (condSql es al c).1 =
+      c.eval (fun i => g.any (fun r => (es.map (evalB o env r)).getD i false))
+
+/-- 65 conditions that all hold of the only row of a group: the leaf for the 65th is false -/
+theorem bitset_tree_correct_counterexample : ¬ bitset_tree_correct_full := by
+  intro h
+  have := h ⟨fun _ _ => false, fun _ => [], fun _ => false, fun _ _ _ => false, id⟩ ⟨fun _ _ _ _ => false⟩ [] [[]]
+    (List.replicate 65 (.int 1)) false (.leaf 64)
+  revert this
+  decide
+
 /-- the alias `bsCond` is defined by the first leaf of the tree: HAVING finds the bit set it refers to -/
 theorem bitset_alias_defined (es : List Expr) (c : Cond) : findBitSet (condSql es false c).1 = some es :=
   findBitSet_condSql es c
@@ -220,7 +236,7 @@ example : ∀ p ∈ script0, SelOk p.1 := by
   intro p hp
   simp only [script0, List.mem_cons, List.mem_singleton, List.not_mem_nil, or_false] at hp
   rcases hp with rfl | rfl
-  · refine ⟨⟨_, rfl, ?_, by decide +kernel⟩, by intro a ha hne; simp [sel0] at ha; subst ha; simp at hne⟩
+  · refine ⟨⟨_, rfl, ?_, by decide +kernel⟩⟩
     intro t ht t' ht' hkk
     simp only [termsOf, List.mem_cons, List.mem_singleton, List.not_mem_nil, or_false] at ht ht'
     rcases ht with rfl | rfl <;> rcases ht' with rfl | rfl
@@ -228,7 +244,7 @@ example : ∀ p ∈ script0, SelOk p.1 := by
     · exact absurd hkk hk
     · exact absurd hkk.symm hk
     · rfl
-  · refine ⟨⟨_, rfl, ?_, by decide +kernel⟩, by intro a ha; simp at ha⟩
+  · refine ⟨⟨_, rfl, ?_, by decide +kernel⟩⟩
     intro t ht t' ht' _
     simp only [termsOf, List.mem_singleton] at ht ht'
     rw [ht, ht']
